@@ -100,7 +100,7 @@ fn ref_record(bytes: &[u8; S], a: usize, b: usize) -> Option<crate::refcodec::Bu
         }
         i += 1;
     }
-    crate::refcodec::ref_decode(&seg, b - a, 252, 64008)
+    crate::refcodec::ref_decode::<S>(&seg, b - a, 252, 64008)
 }
 
 fn reader_records(max_fixed: usize, witness: bool) {
@@ -217,21 +217,21 @@ fn reader_records(max_fixed: usize, witness: bool) {
 }
 
 #[kani::proof]
-#[kani::unwind(26)]
+#[kani::unwind(9)]
 #[kani::stub(hcobs::StreamChunker::pump, stub_pump)]
 fn c06_records_s6() {
     reader_records(1000, false)
 }
 
 #[kani::proof]
-#[kani::unwind(26)]
+#[kani::unwind(9)]
 #[kani::stub(hcobs::StreamChunker::pump, stub_pump)]
 fn c06_records_s6_max2() {
     reader_records(2, false)
 }
 
 #[kani::proof]
-#[kani::unwind(26)]
+#[kani::unwind(9)]
 #[kani::stub(hcobs::StreamChunker::pump, stub_pump)]
 fn c06_records_s6_witness() {
     reader_records(1000, true)
